@@ -16,7 +16,7 @@ pub static PROP: Prop = Prop {
     rule: "received words of all 48 sizes (60 % weight on the 7 odd-k sizes and on multi-block sizes): (i) uniformly random, (ii) codeword + errors of weight t+1..k (or whole block) in at least one block, (iii) constructed near-miss c + w|S with w a minimum-weight codeword and |S| = k+1-t (farther than t from c, exactly t from c+w), (iv) words with a zero prefix of 1..k-1 syndromes, (v) words with a prescribed syndrome vector (isolated non-zero syndromes, zero runs, consistent sequences of 1/2/t errors with one perturbed syndrome) built by solving the Vandermonde system; oracle = if decode_error returns Ok, every block of the word left behind has all k syndromes zero (independent GF arithmetic) and encode_error(data part) equals its EC part; for (iii) the result must be c+w; non-trivial = farther than t from the codeword it was built from in at least one block; distinct by (size, received)",
     assumptions: &["Err is always acceptable beyond the radius; panics are C05's and only counted", "R4 field arithmetic and linear solver"],
     extra: super::no_extra,
-    fuzz_runs: 30000,
+    fuzz_runs: 100000,
 };
 
 pub fn check(c: &RsCase) -> Verdict {
